@@ -41,3 +41,25 @@ func ZZCount(k Keeper, ctx sdk.Context, chain types.ChainID, id uint64) (int, in
 }
 func ZZDefaultParams() types.Params { return zzDefaultParams() }
 func (k Keeper) ZZSetParams(ctx sdk.Context, p types.Params) { k.setParams(ctx, p) }
+
+// ---- attestation state (C02/C03) ----
+
+func (k Keeper) ZZSetVoteRecord(ctx sdk.Context, chain types.ChainID, ev types.ExternalEvent, votes []string, accepted bool) {
+	any, err := types.PackEvent(ev)
+	if err != nil {
+		panic(err)
+	}
+	k.setExternalEventVoteRecord(ctx, chain, ev.GetEventNonce(), ev.Hash(), &types.ExternalEventVoteRecord{Event: any, Votes: votes, Accepted: accepted})
+}
+func (k Keeper) ZZSetLastObservedEventNonce(ctx sdk.Context, chain types.ChainID, n uint64) {
+	k.setLastObservedEventNonce(ctx, chain, n)
+}
+func (k Keeper) ZZSetLastEventNonceByValidator(ctx sdk.Context, chain types.ChainID, v sdk.ValAddress, n uint64) {
+	k.setLastEventNonceByValidator(ctx, chain, v, n)
+}
+func (k Keeper) ZZGetLastEventNonceByValidator(ctx sdk.Context, chain types.ChainID, v sdk.ValAddress) uint64 {
+	return k.getLastEventNonceByValidator(ctx, chain, v)
+}
+func (k Keeper) ZZHasStoredEventNonce(ctx sdk.Context, chain types.ChainID, v sdk.ValAddress) bool {
+	return ctx.KVStore(k.storeKey).Has(types.MakeLastEventNonceByValidatorKey(chain, v))
+}
